@@ -4,7 +4,7 @@ plus a malformed stream over the significant alphabet."""
 SIG = b'{}=<>!?"\\#[]@ \n\t\r;a1-\xef\xbb\xbf\x08\x0b\x0c.x'
 WORDS = [b"a", b"foo", b"bar_baz", b"1444.11.11", b"-1.000", b"yes", b"no", b"b4", b"core", b"x" * 7, b"y" * 8, b"z" * 9,
          b"w" * 15, b"v" * 16, b"u" * 17, b"t" * 31, b"caf\xe9", b"\xc3\xa9t\xc3\xa9", b"k.1", b"A-B", b"0", b"-5", b"@var", b"@[1+2]",
-         b"rgb", b"hsv", b"LIST"]
+         b"rgb", b"hsv", b"LIST", b"x\xa2y", b"\xc3\xa2ge", b"p\xfbq", b"\xbd\xbd", b"n\x8a\x89"]
 OPS = [b"=", b"==", b"<", b"<=", b">", b">=", b"!=", b"?="]
 
 
@@ -20,7 +20,7 @@ def gen_quoted(rng):
         elif r < 0.25:
             out += rng.choice([b"{", b"}", b"#", b"=", b" ", b"\n", b"[", b"]"])
         elif r < 0.3:
-            out += bytes([rng.choice([0xe9, 0xfc, 0x80, 0xef])])
+            out += bytes([rng.choice([0xe9, 0xfc, 0x80, 0xef, 0xa2, 0xdc, 0xfb, 0xfd, 0xa3, 0xbd, 0x8a, 0x89, 0xa0, 0xff])])
         else:
             out += bytes([rng.choice(b"abcdefghijklmnopqrstuvwxyz0123456789_")])
     return b'"' + bytes(out) + b'"'
